@@ -1,12 +1,305 @@
-/-! Model for property C16 (core-only: no Mathlib import, so the driver links). -/
+import OnetVerif.Model.Util
+/-! Model for property C16 — service storage (`context.go:26-51, 166-309`, `service.go:367-425`,
+`server.go:48-82`): one bbolt database per server, buckets named after the service.
+
+The database is `bucket name → key → value` on byte strings.  A stored value is the
+`network.Marshal` encoding of what the service saved (16-byte type id ++ protobuf body); the codec
+itself is a parameter: `Load` succeeds iff the stored bytes start with a registered type id (the
+harness never stores a registered id followed by a malformed body).  Core-only. -/
 namespace C16
 
+abbrev Bytes := List Nat
+
+/-- one bbolt bucket: key → value -/
+abbrev Bucket := Bytes → Option Bytes
+
+/-- the database file: bucket name → bucket (`none`: no such bucket) -/
+abbrev Db := Bytes → Option Bucket
+
+def Db.empty : Db := fun _ => none
+
+/-- `"version"` -/
+def sVersion : Bytes := [118, 101, 114, 115, 105, 111, 110]
+/-- `'_'` -/
+def cUnderscore : Nat := 95
+/-- `var dbVersion = []byte("dbVersion")` (context.go:238) -/
+def dbVersionKey : Bytes := [100, 98, 86, 101, 114, 115, 105, 111, 110]
+
+/-- `bucketName: []byte(ServiceFactory.Name(servID))` (context.go:33) -/
+def mainName (svc : Bytes) : Bytes := svc
+/-- `bucketVersionName: []byte(ServiceFactory.Name(servID) + "version")` (context.go:34) -/
+def versionName (svc : Bytes) : Bytes := svc ++ sVersion
+/-- `fullName := append(append(bucketName, byte('_')), name...)` (context.go:295) -/
+def extraName (svc x : Bytes) : Bytes := svc ++ [cUnderscore] ++ x
+
+/-- `tx.CreateBucketIfNotExists(name)` -/
+def createBucket (db : Db) (n : Bytes) : Db :=
+  fun m => if m = n then some ((db n).getD fun _ => none) else db m
+
+/-- `newContext` (context.go:26-51): both buckets of the service exist afterwards -/
+def newContext (db : Db) (svc : Bytes) : Db :=
+  createBucket (createBucket db (mainName svc)) (versionName svc)
+
+/-- server start on a data directory (`newServiceManager`, service.go:322-365): the file is
+opened with whatever it holds and every registered service gets its context -/
+def startServer (db : Db) (services : List Bytes) : Db := services.foldl newContext db
+
+/-- what a storage call returns -/
+inductive Res where
+  | ok
+  | nothing                -- `(nil, nil)`: no such key
+  | val (b : Bytes)        -- the stored bytes (for `Load`: the encoding of the value returned)
+  | ver (i : Int)
+  | name (b : Bytes)       -- bucket name returned by `GetAdditionalBucket`
+  | errTx                  -- the bbolt transaction failed (key empty or too large)
+  | errMarshal
+  | errUnmarshal
+  | errVersion             -- `bytes to int`
+  | noBucket               -- direct access to an additional bucket that was never created
+  | panic                  -- nil bucket dereferenced inside onet
+  deriving DecidableEq, Repr
+
+/-- bbolt `MaxKeySize` -/
+def maxKeySize : Nat := 32768
+
+/-- `b.Put(key, v)` in bucket `n` inside `db.Update`; `none`: no such bucket -/
+def putIn (db : Db) (n k v : Bytes) : Option (Db × Res) :=
+  match db n with
+  | none => none
+  | some b =>
+    if k = [] ∨ k.length > maxKeySize then some (db, .errTx)
+    else some (fun m => if m = n then some (fun k' => if k' = k then some v else b k') else db m, .ok)
+
+/-- `b.Delete(key)` in bucket `n` -/
+def delIn (db : Db) (n k : Bytes) : Option (Db × Res) :=
+  match db n with
+  | none => none
+  | some b => some (fun m => if m = n then some (fun k' => if k' = k then none else b k') else db m, .ok)
+
+/-- `tx.Bucket(n).Get(key)`; outer `none`: no such bucket -/
+def getFrom (db : Db) (n k : Bytes) : Option (Option Bytes) := (db n).map (· k)
+
+/-- `network.Unmarshal` succeeds: the bytes start with a registered type id -/
+def decodable (known : List Bytes) (raw : Bytes) : Bool :=
+  decide (16 ≤ raw.length) && known.contains (raw.take 16)
+
+/-- `int32(version)` written little-endian (context.go:268-271) -/
+def wrap32 (v : Int) : Nat := (v % 4294967296).toNat
+def encodeVersion (v : Int) : Bytes :=
+  let u := wrap32 v
+  [u % 256, u / 256 % 256, u / 65536 % 256, u / 16777216 % 256]
+
+/-- `binary.Read(…, LittleEndian, &int32)` on the first four bytes -/
+def decodeVersion (b : Bytes) : Option Int :=
+  match b with
+  | b0 :: b1 :: b2 :: b3 :: _ =>
+    let u := b0 % 256 + 256 * (b1 % 256) + 65536 * (b2 % 256) + 16777216 * (b3 % 256)
+    some (if u < 2147483648 then (u : Int) else (u : Int) - 4294967296)
+  | _ => none
+
+/-- the storage calls of a `Context` (and direct use of an additional bucket through the
+returned database handle and bucket name) -/
+inductive Op where
+  | save (k raw : Bytes)        -- `Save(key, value)` with `network.Marshal(value) = raw`
+  | saveBad (k : Bytes)         -- `Save` of a value of an unregistered type
+  | load (k : Bytes)
+  | loadRaw (k : Bytes)
+  | saveVersion (v : Int)
+  | loadVersion
+  | addBucket (x : Bytes)       -- `GetAdditionalBucket(x)`
+  | bput (x k v : Bytes)        -- `db.Update(tx.Bucket(svc_x).Put(k, v))`
+  | bget (x k : Bytes)
+  | bdel (x k : Bytes)
+  deriving DecidableEq, Repr
+
+/-- one call by service `svc` -/
+def step (known : List Bytes) (db : Db) (svc : Bytes) : Op → Db × Res
+  | .save k raw =>
+    match putIn db (mainName svc) k raw with
+    | none => (db, .panic)
+    | some r => r
+  | .saveBad _ => (db, .errMarshal)
+  | .load k =>
+    match getFrom db (mainName svc) k with
+    | none => (db, .panic)
+    | some none => (db, .nothing)
+    | some (some raw) => (db, if decodable known raw then .val raw else .errUnmarshal)
+  | .loadRaw k =>
+    match getFrom db (mainName svc) k with
+    | none => (db, .panic)
+    | some none => (db, .nothing)
+    | some (some raw) => (db, .val raw)
+  | .saveVersion v =>
+    match putIn db (versionName svc) dbVersionKey (encodeVersion v) with
+    | none => (db, .panic)
+    | some r => r
+  | .loadVersion =>
+    match getFrom db (versionName svc) dbVersionKey with
+    | none => (db, .panic)
+    | some none => (db, .ver 0)
+    | some (some []) => (db, .ver 0)
+    | some (some b) =>
+      match decodeVersion b with
+      | some v => (db, .ver v)
+      | none => (db, .errVersion)
+  | .addBucket x => (createBucket db (extraName svc x), .name (extraName svc x))
+  | .bput x k v =>
+    match putIn db (extraName svc x) k v with
+    | none => (db, .noBucket)
+    | some r => r
+  | .bget x k =>
+    match getFrom db (extraName svc x) k with
+    | none => (db, .noBucket)
+    | some none => (db, .nothing)
+    | some (some v) => (db, .val v)
+  | .bdel x k =>
+    match delIn db (extraName svc x) k with
+    | none => (db, .noBucket)
+    | some r => r
+
+/-- an event of a server's life on one data directory -/
+inductive Ev where
+  | call (svc : Bytes) (op : Op)
+  | restart (services : List Bytes)     -- close, then start again with these services registered
+
+/-- a history: database after it and the results of the calls, in order -/
+def run (known : List Bytes) (db : Db) : List Ev → Db × List Res
+  | [] => (db, [])
+  | .call svc op :: rest =>
+    let r := step known db svc op
+    let r' := run known r.1 rest
+    (r'.1, r.2 :: r'.2)
+  | .restart services :: rest => run known (startServer db services) rest
+
+/-! ### Line-protocol driver -/
 namespace Drv
-/-- line-protocol driver state for C16 -/
-abbrev State := Unit
-def init : State := ()
-/-- one line in (tokens after the property prefix), new state and one line out -/
-def step (s : State) (_toks : List String) : State × String := (s, "bad-op")
+
+structure State where
+  db : Db := Db.empty
+  known : List Bytes := []
+  services : List Bytes := []
+  up : Bool := false
+
+def init : State := {}
+
+def showRes : Res → String
+  | .ok => "ok"
+  | .nothing => "none"
+  | .val b => "v:" ++ Util.hex b
+  | .ver i => "n:" ++ toString i
+  | .name b => "b:" ++ Util.hex b
+  | .errTx => "err:tx"
+  | .errMarshal => "err:marshal"
+  | .errUnmarshal => "err:unmarshal"
+  | .errVersion => "err:version"
+  | .noBucket => "nobucket"
+  | .panic => "panic"
+
+def ascii (s : String) : Bytes := s.toList.map (·.toNat)
+
+def parseInt (s : String) : Option Int :=
+  match s.toList with
+  | '-' :: r => if r.isEmpty then none else (String.ofList r).toNat?.map fun n => -(n : Int)
+  | _ => s.toNat?.map fun n => (n : Int)
+
+def names (s : String) : List Bytes := if s = "-" then [] else (s.splitOn ",").map ascii
+
+/-- a call in a concurrent segment: `s,svc,key,raw,value` | `l,svc,key` | `r,svc,key` -/
+def parseCall (s : String) : Option (Bytes × Op) :=
+  match s.splitOn "," with
+  | ["s", svc, k, raw, _goValue] => do pure (ascii svc, .save (← Util.unhex k) (← Util.unhex raw))
+  | ["l", svc, k] => do pure (ascii svc, .load (← Util.unhex k))
+  | ["r", svc, k] => do pure (ascii svc, .loadRaw (← Util.unhex k))
+  | _ => none
+
+def opKey : Op → Bytes
+  | .save k _ | .saveBad k | .load k | .loadRaw k => k
+  | .bput _ k _ | .bget _ k | .bdel _ k => k
+  | _ => []
+
+/-- replays the threads' calls in the order `lin` (a list of thread numbers); `none` if `lin` is
+no interleaving of the threads -/
+def replay (known : List Bytes) (services : List Bytes) :
+    List Nat → Db → List (List (Bytes × Op)) → List (List String) → Option (Db × List (List String))
+  | [], db, threads, outs => if threads.all (·.isEmpty) then some (db, outs) else none
+  | t :: lin, db, threads, outs =>
+    match threads[t]? with
+    | some ((svc, op) :: rest) =>
+      if services.contains svc then
+        let r := C16.step known db svc op
+        replay known services lin r.1 (threads.set t rest) (outs.modify t (· ++ [showRes r.2]))
+      else none
+    | _ => none
+
+def call (s : State) (svc : String) (op : Op) : State × String :=
+  if s.up && s.services.contains (ascii svc) then
+    let r := C16.step s.known s.db (ascii svc) op
+    ({ s with db := r.1 }, showRes r.2)
+  else (s, "bad-op")
+
+def step (s : State) (toks : List String) : State × String :=
+  match toks with
+  | ["tags", l] =>
+    match (if l = "-" then some [] else (l.splitOn ",").mapM Util.unhex) with
+    | some ts => ({ s with known := ts }, "ok")
+    | none => (s, "bad-op")
+  | ["start", l] =>
+    if s.up then (s, "bad-op")
+    else ({ s with db := startServer s.db (names l), services := names l, up := true }, "ok")
+  | ["stop"] => if s.up then ({ s with up := false }, "ok") else (s, "bad-op")
+  | ["save", svc, k, raw, _goValue] =>     -- the fifth token describes the Go value (harness only)
+    match Util.unhex k, Util.unhex raw with
+    | some k, some raw => call s svc (.save k raw)
+    | _, _ => (s, "bad-op")
+  | ["savebad", svc, k] =>
+    match Util.unhex k with
+    | some k => call s svc (.saveBad k)
+    | none => (s, "bad-op")
+  | ["load", svc, k] =>
+    match Util.unhex k with
+    | some k => call s svc (.load k)
+    | none => (s, "bad-op")
+  | ["raw", svc, k] =>
+    match Util.unhex k with
+    | some k => call s svc (.loadRaw k)
+    | none => (s, "bad-op")
+  | ["savever", svc, v] =>
+    match parseInt v with
+    | some v => call s svc (.saveVersion v)
+    | none => (s, "bad-op")
+  | ["loadver", svc] => call s svc .loadVersion
+  | ["addb", svc, x] =>
+    match Util.unhex x with
+    | some x => call s svc (.addBucket x)
+    | none => (s, "bad-op")
+  | ["bput", svc, x, k, v] =>
+    match Util.unhex x, Util.unhex k, Util.unhex v with
+    | some x, some k, some v => call s svc (.bput x k v)
+    | _, _, _ => (s, "bad-op")
+  | ["bget", svc, x, k] =>
+    match Util.unhex x, Util.unhex k with
+    | some x, some k => call s svc (.bget x k)
+    | _, _ => (s, "bad-op")
+  | ["bdel", svc, x, k] =>
+    match Util.unhex x, Util.unhex k with
+    | some x, some k => call s svc (.bdel x k)
+    | _, _ => (s, "bad-op")
+  | ["par", threads, lin] =>
+    let ts : Option (List (List (Bytes × Op))) :=
+      (threads.splitOn "|").mapM fun t => (t.splitOn ";").mapM parseCall
+    match ts, (lin.dropPrefix? "lin=").bind (fun r => Util.natList r.toString) with
+    | some ts, some order =>
+      if !s.up then (s, "bad-op") else
+      match replay s.known s.services order s.db ts (ts.map fun _ => []) with
+      | some (db, outs) =>
+        -- then the final contents of everything the segment touched, in order of first appearance
+        let touched := (ts.flatten.map fun c => (c.1, opKey c.2)).eraseDups
+        let fin := touched.map fun c => showRes (C16.step s.known db c.1 (.loadRaw c.2)).2
+        ({ s with db := db }, "|".intercalate (outs.map (",".intercalate ·)) ++ "#" ++ ",".intercalate fin)
+      | none => (s, "bad-op")
+    | _, _ => (s, "bad-op")
+  | _ => (s, "bad-op")
+
 end Drv
 
 end C16
